@@ -37,6 +37,11 @@ pub(crate) struct ZcState<const N: usize> { pub pool: pa::PoolState<N>, pub q_or
 }
 #[allow(dead_code)] pub(crate) fn payloads<const N: usize>(q: &Zc<N>) -> [u32; N] { unsafe { *(pa::pool_base(&*q.allocator) as *mut [u32; N]) } }
 
+/// channel-level observers
+#[allow(dead_code)] pub(crate) fn pending<const N: usize>(q: &Zc<N>) -> u32 { q.queue.snapshot().1 }
+#[allow(dead_code)] pub(crate) fn pending_payload<const N: usize>(q: &Zc<N>, k: u32) -> u32 { payloads(q)[q.queue.seq_at(k) as usize % N] }
+#[allow(dead_code)] pub(crate) fn quiescent<const N: usize>(q: &Zc<N>) -> bool { q.queue.quiescent() && q.allocator.free_list_quiescent() }
+
 #[cfg(kani)]
 pub(crate) mod proofs {
     use super::*;
